@@ -87,3 +87,10 @@ Definition is_alpha (c : N) : bool :=
 (* '%XX' with upper-case hex digits *)
 Definition hex_digit (d : N) : N := if d <? 10 then 48 + d else 55 + d.
 Definition pct_encode (c : N) : str := [PCT; hex_digit (c / 16); hex_digit (c mod 16)].
+
+(* ---- helpers named by the source translator (harness/translators/c07_src.py) ---- *)
+Definition py_len {A} (l : list A) : N := N.of_nat (length l).          (* len(l) *)
+Definition py_last1 {A} (l : list A) : list A :=                         (* l[-1:] *)
+  match rev l with x :: _ => [x] | [] => [] end.
+Definition py_first (l : list str) : str := hd [] l.                     (* l[0], l non-empty *)
+Definition strs_eqb (a b : list str) : bool := list_eqb str_eqb a b.
